@@ -209,6 +209,29 @@ def run(ctx, cases=None):
             ctx.stat('K-prim/errors', b)
             if m_ok:
                 ctx.violation('impl-rejects-a-representable-value', detail)
+    run_lists(ctx)
+
+
+def run_lists(ctx):
+    """The same codes through the attribute layer: lists of n integers with or without one value outside the code's range,
+    written through the public API; the write must raise exactly when the model's does, and a written file must hold the values."""
+    import apistream
+    import judge
+    rng = ctx.rng('lists')
+    for k in range(40 if ctx.tier == 'quick' else 500):
+        prog, info = apistream.gen_value_lists(rng)
+        r = apistream.run_one(ctx, prog, 'K-api-lists')
+        ctx.count('K-api-lists', key=(k, info['count'], info['out_of_range']))
+        ctx.stat('K-api-lists', 'written' if r['files'] else 'raised')
+        if info['out_of_range'] and r['files'] and info['attribute'] == 'coordinates':      # ints stay ints there (SLONG); the numeric attributes store floats
+            ctx.violation('value-outside-its-code-was-written', {'program': apistream.strip_private(prog), **info})
+        if r['files']:
+            step, data, vrl, ident = r['files'][-1]
+            d = apistream.decode(ctx, data, vrl, ident)
+            if not d.ok:
+                ctx.violation('file-rejected-by-strict-reader', {'program': apistream.strip_private(prog), **info})
+            else:
+                judge.check_fidelity(ctx, d, judge.expected_at(prog, r['outs'], step), {'program': apistream.strip_private(prog), **info})
 
 
 def replay(ctx, data):
